@@ -86,7 +86,8 @@
 //! *Wakes from foreign threads* (e.g. tokio's blocking pool completing file I/O) are accepted at any
 //! time, but deadlock detection is only sound if no such wake can be outstanding when an actor
 //! parks: an actor that polls I/O-backed futures must quiesce the I/O source between `poll`
-//! returning `Pending` and `park()` (see vf-chan `c16` for the tokio recipe).
+//! returning `Pending` and `park()`, and must use [`ActorCtx::take_wake`] so that the timing of the
+//! I/O wake never turns into a scheduling step (see vf-chan `c16` for the tokio recipe).
 //!
 //! *Memory model.* The scheduler is sequentially consistent: it decides which actor performs the
 //! next shared access, not how hardware reorders `Relaxed` operations.
@@ -704,6 +705,19 @@ impl ActorCtx {
                 }
             }
         }
+    }
+
+    /// Clear and return the "woken since the last park" flag — no scheduling step, no trace entry.
+    /// For actors whose futures are backed by foreign-thread I/O: after `poll` returned `Pending`
+    /// and the I/O source was quiesced, `take_wake() == true` means "re-poll" (the I/O completed),
+    /// `false` means the wait is logical → `park()`. Call it (and ignore the result) right before
+    /// each poll as well, so that a stale flag left by an I/O completion that raced with the poll
+    /// cannot influence anything. This keeps runs deterministic although the *timing* of I/O wakes
+    /// is not.
+    pub fn take_wake(&self) -> bool {
+        let mut w = self.shared.lock();
+        let me = self.id;
+        std::mem::replace(&mut w.slots[me].woken, false)
     }
 
     /// Harness-level preemptible yield point (appears in the trace as `label`).
